@@ -79,7 +79,7 @@ pub(super) mod udp {
     use std::net::SocketAddrV4;
 
     use anyhow::anyhow;
-    use anyhow::bail;
+    use log::warn;
     use octo_squirrel::codec::DatagramPacket;
     use octo_squirrel::codec::aead::CipherKind;
     use octo_squirrel::codec::shadowsocks::udp::AEADCipherCodec;
@@ -183,10 +183,19 @@ pub(super) mod udp {
             } else {
                 match self.codec.decode(src)? {
                     Some((content, addr, session)) => {
-                        if !self.filter.validate_packet_id(session.packet_id, u64::MAX) {
-                            bail!("[udp] packet_id out of window; session={}", session)
+                        // session and packet ids exist only in the 2022 ciphers; a packet that is not for this
+                        // session, a duplicate or a stale one is dropped and the session goes on
+                        if self.codec.is_aead_2022() {
+                            if session.client_session_id != self.session.client_session_id {
+                                warn!("[udp] packet of another session dropped; session={}", session);
+                                return Ok(None);
+                            }
+                            if !self.filter.validate_packet_id(session.packet_id, u64::MAX) {
+                                warn!("[udp] packet_id out of window, packet dropped; session={}", session);
+                                return Ok(None);
+                            }
+                            self.session.server_session_id = session.server_session_id;
                         }
-                        self.session.server_session_id = session.server_session_id;
                         Ok(Some((content, addr)))
                     }
                     None => Ok(None),
